@@ -259,14 +259,14 @@ end AList
 
 /-! ### frames: which fields an operation leaves alone -/
 
-/-- the fields that neither a bank operation, nor a slashing routine, nor a message handler touches -/
+/-- the fields that neither a bank operation, nor a slashing routine, nor a message handler touches
+(the access-control list is not among them: a `gov/acl` change re-assigns the owner of one key) -/
 structure TxFrame (s s' : State) : Prop where
   prev : s'.prev = s.prev
   prevTot : s'.prevTot = s.prevTot
   awards : s'.awards = s.awards
   burns : s'.burns = s.burns
   proposer : s'.proposer = s.proposer
-  acl : s'.acl = s.acl
   pool : s'.pool = s.pool
   feeAcc : s'.feeAcc = s.feeAcc
   posAcc : s'.posAcc = s.posAcc
@@ -281,6 +281,7 @@ structure TxFrame (s s' : State) : Prop where
 structure SlashFrame (s s' : State) : Prop extends TxFrame s s' where
   rel : s'.rel = s.rel
   p : s'.p = s.p
+  acl : s'.acl = s.acl
   daoOwner : s'.daoOwner = s.daoOwner
 
 /-- … plus all staking records: everything except `bal` and `supply` (a pure bank operation) -/
@@ -299,13 +300,14 @@ theorem SlashFrame.refl (s : State) : SlashFrame s s := by frame_rfl
 theorem BankFrame.refl (s : State) : BankFrame s s := by frame_rfl
 
 theorem TxFrame.trans {a b c : State} (h1 : TxFrame a b) (h2 : TxFrame b c) : TxFrame a c := by
-  constructor <;> simp only [h2.prev, h2.prevTot, h2.awards, h2.burns, h2.proposer, h2.acl, h2.pool, h2.feeAcc,
+  constructor <;> simp only [h2.prev, h2.prevTot, h2.awards, h2.burns, h2.proposer, h2.pool, h2.feeAcc,
     h2.posAcc, h2.daoAcc, h2.keys, h2.height, h2.time, h2.cHeight, h2.cTime, h1.prev, h1.prevTot, h1.awards,
-    h1.burns, h1.proposer, h1.acl, h1.pool, h1.feeAcc, h1.posAcc, h1.daoAcc, h1.keys, h1.height, h1.time,
+    h1.burns, h1.proposer, h1.pool, h1.feeAcc, h1.posAcc, h1.daoAcc, h1.keys, h1.height, h1.time,
     h1.cHeight, h1.cTime]
 
 theorem SlashFrame.trans {a b c : State} (h1 : SlashFrame a b) (h2 : SlashFrame b c) : SlashFrame a c :=
-  ⟨h1.toTxFrame.trans h2.toTxFrame, h2.rel.trans h1.rel, h2.p.trans h1.p, h2.daoOwner.trans h1.daoOwner⟩
+  ⟨h1.toTxFrame.trans h2.toTxFrame, h2.rel.trans h1.rel, h2.p.trans h1.p, h2.acl.trans h1.acl,
+    h2.daoOwner.trans h1.daoOwner⟩
 
 theorem BankFrame.trans {a b c : State} (h1 : BankFrame a b) (h2 : BankFrame b c) : BankFrame a c :=
   ⟨h1.toSlashFrame.trans h2.toSlashFrame, h2.vals.trans h1.vals, h2.idx.trans h1.idx, h2.queue.trans h1.queue,
@@ -1775,7 +1777,7 @@ theorem parseQuotedInt_nonneg {v : String} {n : Int} (h : parseQuotedInt v = som
   | none => rw [hu] at h; simp at h
   | some cs => rw [hu] at h; exact digitsToInt_nonneg h
 
-/-- a parameter change touches only `p` and `daoOwner`, and keeps the minimum stake non-negative -/
+/-- a parameter change touches only `p`, `acl` and `daoOwner`, and keeps the minimum stake non-negative -/
 theorem applyParam_spec (s : State) (key val : String) :
     TxFrame s (applyParam s key val) ∧ (applyParam s key val).bal = s.bal ∧
     (applyParam s key val).supply = s.supply ∧ (applyParam s key val).vals = s.vals ∧
